@@ -33,3 +33,10 @@ pub fn advance(ns: u64) {
 pub fn now_rel() -> u64 {
     NOW_NS.load(Ordering::SeqCst) - BASE_NS
 }
+
+/// real monotonic time in ns (raw syscall: not affected by the virtual clock); for watchdogs
+pub fn real_ns() -> u64 {
+    let mut ts = libc::timespec { tv_sec: 0, tv_nsec: 0 };
+    unsafe { libc::syscall(libc::SYS_clock_gettime, libc::CLOCK_MONOTONIC, &mut ts as *mut libc::timespec); }
+    ts.tv_sec as u64 * 1_000_000_000 + ts.tv_nsec as u64
+}
